@@ -296,7 +296,9 @@ def expand1 : Eff → List Micro
   | .hooks => [.nop]
   | .wait => [.waitReady]
   | .result => [.setResult]
-  | .finishFail => [.finishFailHead, .endSupp, .readProg]
+  -- a7f78cf: finishReloadFailure ends like finishReloadSuccess (release now, or hand the release to a G
+  -- that waits for the retirement the worker has already published)
+  | .finishFail => [.finishSucc]
   | .finishSucc => [.finishSucc]
   | .exitHold => [.exitHold]
   | .exitIdle => [.exitIdle]
